@@ -47,7 +47,12 @@ fn run_layout(input: &[u8]) -> (Vec<usize>, Vec<usize>) {
 pub fn generate(rng: &mut Rng, seed: u64, run: u64, max_len: usize) -> Trace {
     let surface = *rng.pick(&SURFACES);
     let flavor = if rng.chance(1, 2) { Flavor::Text } else { Flavor::Bytes };
-    let mut wl = gen::workload(rng, flavor, max_len);
+    let mut wl = if rng.chance(1, 5) {
+        // restricted well-formed grammar: the stripped form is also known independently
+        gen::simple_escape_workload(rng, max_len.min(4096))
+    } else {
+        gen::workload(rng, flavor, max_len)
+    };
     let mut ops = gen_ops(rng, &wl, true);
     if rng.chance(1, 6) {
         // literal-only format strings: the `Arguments::as_str()` shape
@@ -527,6 +532,24 @@ pub fn execute(t: &Trace, stats: &mut Stats, record: bool) -> Outcome {
         other => Some(Violation { class: "harness".into(), detail: format!("unknown surface {other}") }),
     };
 
+    let mut violation = violation;
+    if violation.is_none() {
+        // the reference for everything above is the real one-shot stripper; for inputs of the
+        // restricted well-formed grammar the visible text is also known independently
+        if let Some(m) = simple_strip_model(&t.input) {
+            client.st.probe("input_in_restricted_escape_grammar_checked_against_independent_model");
+            if m != client.e {
+                violation = viol(
+                    acct_class(&client.e, &m),
+                    format!(
+                        "the stripped form the stream delivers for this input is {:?}, but an independent reading of its escape sequences (VT500 parser model) leaves the visible text {:?}",
+                        lossy(&client.e),
+                        lossy(&m)
+                    ),
+                );
+            }
+        }
+    }
     let mut out = Outcome { violation, ..Default::default() };
     let mut hash = client.hash;
     out.log = std::mem::take(&mut client.log);
